@@ -100,7 +100,7 @@ def model_correspondence(ctx, n):
         pairs.append({'rules': text, 'data': json.dumps(doc)})
     # every case also runs the proven termination test on the AST the implementation parsed: `Some w` = the program is
     # stratified and fuel w is enough for every document (TermProps.terminates_within_sound), `None` = not certified
-    out, errs = corr.run(pairs, ctx.wd, 'c08corr', loader='cli', expr='({check}, pwf_prog p{i} && wfv d{i}, terminates_within p{i} 12)',
+    out, errs = corr.run(pairs, ctx.wd, 'c08corr', loader='cli', expr='({check}, pwf_prog p{i} && vwf_prog p{i} && wfv d{i}, terminates_within p{i} 12)',
                          header='From GV.Model Require Import Check Strat.\n')
     if errs:
         raise ToolingError('model evaluation failed: %r' % (errs[:1],))
@@ -118,7 +118,7 @@ def model_correspondence(ctx, n):
             if m.group(2) != 'true':
                 # the hypothesis of C08_no_panic_site_is_reached is a claim about the parser: an accepted rules file whose AST is
                 # not parser-shaped takes the theorem away (and the model then says which panic site is reached, if any)
-                ctx.failing('the parser accepted a rules file whose AST is not parser-shaped, or the loader built a struct whose key list names a key it does not hold (Strat.pwf_prog && Strat.wfv = false): the premises of C08_no_panic_site_is_reached do not hold of the pair',
+                ctx.failing('the parser accepted a rules file whose AST is not parser-shaped, or the loader built a struct whose key list names a key it does not hold (Strat.pwf_prog && Strat.vwf_prog && Strat.wfv = false): the premises of C08_evaluation_never_panics do not hold of the pair',
                             {'class': 'parser-shape', 'rules': p['rules'], 'data': p['data'], 'model': o['verdict']}, found=('Panic' in o['verdict'] or 'panic' in str(o.get('impl'))))
             o['certified'] = cert
             pyc = reference_cycle(o['ast'])
@@ -476,7 +476,7 @@ def fuzz(ctx, n):
         rr = a.get('res')
         if rr and rr[0] == 'Ok':
             try:
-                pcases.append((k, 'Definition p%d : rules_file := %s.' % (k, ct.rules_file(rr[1])), 'pwf_prog p%d' % k))
+                pcases.append((k, 'Definition p%d : rules_file := %s.' % (k, ct.rules_file(rr[1])), 'pwf_prog p%d && vwf_prog p%d' % (k, k)))
             except Exception:
                 continue
     if pcases:
